@@ -17,6 +17,9 @@ import (
 type c04Case struct {
 	E   mon.ElemCase `json:"elem"`
 	Via string       `json:"via,omitempty"` // how the element was produced: "" = materialised, or an operation
+	// Move: the object first holds Move.From and is serialised through every view, is then driven to Move.To by one
+	// mutator, and is serialised again (E is ignored).
+	Move *mon.ElemMove `json:"move,omitempty"`
 }
 
 func init() {
@@ -26,12 +29,15 @@ func init() {
 		Rule: "cases = (group element value, representation or producing operation): every pool point and its negation (both y parities), small-x points (leading zero bytes), " +
 			"in affine / λ-scaled (structured + random λ) representations; the identity as (0:1:0), (0:Y:0) and as produced by P-P, P+(-P), [n]P, [0]P, Decode(00), NewElement, Identity(); PRNG cases. " +
 			"Oracle: SEC1 bytes computed from the affine value in math/big (the same bytes for every representation of a value); Encode/EncodeUncompressed/XCoordinate/Hex/MarshalBinary compared byte for byte; " +
-			"Decode, DecodeHex, UnmarshalBinary of each output must give back the value. non-trivial = not the canonical (0:1:0) identity; distinct by (value, representation, via).",
+			"Decode, DecodeHex, UnmarshalBinary of each output must give back the value. " +
+			"History cases: one *Element object holds a first value, is serialised through every view (so that any memo is filled), is driven to a second value through each mutator " +
+			"(Set, every decoder, Identity, Base, Negate, Add, Subtract, Double, Multiply by small k / n-1 / 1 / 0 / nil, nil arguments, self-aliasing, a rejected decode) and is serialised again. " +
+			"non-trivial = not the canonical (0:1:0) identity; distinct by (value, representation, via, history).",
 		NewCase:  func() any { return &c04Case{} },
 		Generate: c04Generate,
 		Run:      c04Run,
 		Require: func(string) map[string]int64 {
-			return map[string]int64{"value:O": 20, "parity:even": 100, "parity:odd": 100, "repr:scaled": 200, "repr:id-y": 10, "x-leading-zero": 10, "via:ops": 8}
+			return map[string]int64{"value:O": 20, "parity:even": 100, "parity:odd": 100, "repr:scaled": 200, "repr:id-y": 10, "x-leading-zero": 10, "via:ops": 8, "history-cases": 400, "move:negate": 10, "move:sub": 10, "move:mul-1": 10}
 		},
 	})
 }
@@ -54,7 +60,21 @@ func c04Generate(c *mon.Ctx) {
 		c.Structured(func() any { return &c04Case{E: g, Via: via} })
 	}
 
+	hr := c.SharedRng("moves")
+
+	for rep := 0; rep < 20; rep++ {
+		for _, via := range mon.ElemVias {
+			mv := mon.PlanElemMove(via, hr)
+			c.Structured(func() any { return &c04Case{Move: &mv} })
+		}
+	}
+
 	c.Random(c.N(30000, 3000000), func(r *gen.Rng) any {
+		if r.Intn(12) == 0 {
+			mv := mon.PlanElemMove(mon.ElemVias[r.Intn(len(mon.ElemVias))], r)
+			return &c04Case{Move: &mv}
+		}
+
 		var pv gen.PV
 
 		switch r.Intn(8) {
@@ -76,8 +96,36 @@ func c04Generate(c *mon.Ctx) {
 
 func c04Run(c *mon.Ctx, csAny any) {
 	cs := csAny.(*c04Case)
+	if cs.Move != nil {
+		// the element under test is the moved object; E mirrors it for the bookkeeping below
+		cs.E = mon.ElemCase{P: cs.Move.To, R: mon.ReprCase{Kind: "moved:" + cs.Move.Via, L: "1"}}
+	}
+
 	p := cs.E.P.Pt()
-	e := cs.E.Build()
+
+	var e *secp256k1.Element
+
+	if cs.Move != nil {
+		c.Count("history-cases")
+		c.Count("move:" + cs.Move.Via)
+
+		e = cs.Move.From.Build()
+		// serialise the old value through every view
+		_, _, _, _ = e.Encode(), e.EncodeUncompressed(), e.XCoordinate(), e.Hex()
+		_, _ = e.MarshalBinary()
+
+		if pan, pv := mon.Call(func() { mon.ApplyElemMove(e, *cs.Move) }); pan {
+			if m, ok := pv.(string); ok && len(m) > 8 && m[:8] == "harness:" {
+				panic(m)
+			}
+
+			c.Fail(fmt.Sprintf("mutator %s panicked: %v", cs.Move.Via, pv), "encode-history-panic", nil)
+
+			return
+		}
+	} else {
+		e = cs.E.Build()
+	}
 
 	if cs.Via != "" {
 		c.Count("via:ops")
